@@ -9,12 +9,11 @@ import (
 	"os"
 	"path/filepath"
 	"sort"
+	"strings"
 )
 
-type meta struct {
-	Notes         string                       `json:"notes"`
-	NotApplicable []map[string]string          `json:"not_applicable"`
-	Checks        map[string]map[string]string `json:"checks"`
+type propLine struct {
+	ID string `json:"id"`
 }
 
 func main() {
@@ -22,30 +21,49 @@ func main() {
 	if len(os.Args) > 1 {
 		dir = os.Args[1]
 	}
-	var m meta
-	b, err := os.ReadFile(filepath.Join(dir, "manifest_meta.json"))
+	// all property ids
+	var ids []string
+	pb, err := os.ReadFile(filepath.Join(dir, "properties.jsonl"))
 	if err != nil {
 		panic(err)
 	}
-	if err := json.Unmarshal(b, &m); err != nil {
-		panic(err)
+	for _, l := range strings.Split(string(pb), "\n") {
+		if strings.TrimSpace(l) == "" {
+			continue
+		}
+		var p propLine
+		if err := json.Unmarshal([]byte(l), &p); err != nil {
+			panic(err)
+		}
+		ids = append(ids, p.ID)
 	}
-	specs, _ := filepath.Glob(filepath.Join(dir, "harness", "*", "spec.json"))
-	sort.Strings(specs)
 	var checks []map[string]any
 	var served []string
-	for _, sp := range specs {
+	var na []map[string]string
+	for _, id := range ids {
 		var s struct {
 			ID    string `json:"id"`
 			Level string `json:"level"`
 		}
-		sb, _ := os.ReadFile(sp)
-		if err := json.Unmarshal(sb, &s); err != nil {
-			panic(fmt.Sprintf("%s: %v", sp, err))
+		var cm map[string]any
+		sb, err1 := os.ReadFile(filepath.Join(dir, "harness", id, "spec.json"))
+		mb, err2 := os.ReadFile(filepath.Join(dir, "harness", id, "meta.json"))
+		if err2 == nil {
+			if err := json.Unmarshal(mb, &cm); err != nil {
+				panic(fmt.Sprintf("%s meta.json: %v", id, err))
+			}
 		}
-		cm := m.Checks[s.ID]
-		if cm == nil {
-			continue // harness exists but the property is not claimed (yet)
+		claimed, _ := cm["claimed"].(bool)
+		if err1 != nil || !claimed {
+			reason, _ := cm["reason"].(string)
+			if reason == "" {
+				reason = "check not built yet (planned, see DESIGN.md §2 " + id + ")"
+			}
+			na = append(na, map[string]string{"property_id": id, "reason": reason})
+			continue
+		}
+		if err := json.Unmarshal(sb, &s); err != nil {
+			panic(fmt.Sprintf("%s spec.json: %v", id, err))
 		}
 		served = append(served, s.ID)
 		checks = append(checks, map[string]any{
@@ -64,6 +82,8 @@ func main() {
 			"level_note": cm["note"],
 		})
 	}
+	sort.Strings(served)
+	notes := "All checks are bounded exhaustive explorations of the real Go code, injected into /repo's current working tree by build overlays (see DESIGN.md). Properties whose check is not finished are listed under not_applicable until their harness lands."
 	out := map[string]any{
 		"version":   1,
 		"setup_cmd": "./setup.sh",
@@ -80,12 +100,12 @@ func main() {
 			{"name": "vcheck", "path": "cmd/vcheck", "kind_free_text": "driver: overlay generation from the current /repo tree, sharding, evidence, known findings, replay", "serves_properties": served},
 		},
 		"checks":         checks,
-		"notes":          m.Notes,
-		"not_applicable": m.NotApplicable,
+		"notes":          notes,
+		"not_applicable": na,
 	}
 	ob, _ := json.MarshalIndent(out, "", " ")
 	if err := os.WriteFile(filepath.Join(dir, "MANIFEST.json"), append(ob, '\n'), 0o644); err != nil {
 		panic(err)
 	}
-	fmt.Printf("MANIFEST.json: %d checks, %d not_applicable\n", len(checks), len(m.NotApplicable))
+	fmt.Printf("MANIFEST.json: %d checks, %d not_applicable\n", len(checks), len(na))
 }
